@@ -237,13 +237,24 @@ pub fn gen_c12(base_seed: u64, batch: &str, run: u64, rng: &mut Rng) -> Scenario
             threads[t].push(Op::Own { slot, which, x: rng.below(4) as u8, catch: true, die_with_value: die, fault });
         }
     }
-    if n_threads > 1 {
-        threads[0].push(Op::Wait { mask: 0xfe });
+    if n_threads > 1 && !share_original && rng.chance(1, 6) {
+        // the original goes first and quietly; the last instance of the mock - and with it whatever is
+        // still stored - is released by a clone on a thread that did not create the mock
+        threads[0].push(Op::NoVerifyInDrop { slot: 0 });
+        threads[0].push(Op::Drop { slot: 0 });
+        for t in 1..n_threads {
+            threads[t].push(Op::Wait { mask: 1 });
+            threads[t].push(Op::Drop { slot: t as u8 });
+        }
+    } else {
+        if n_threads > 1 {
+            threads[0].push(Op::Wait { mask: 0xfe });
+        }
+        for t in 1..n_threads {
+            threads[0].push(Op::Drop { slot: t as u8 });
+        }
+        threads[0].push(if rng.chance(1, 2) { Op::Drop { slot: 0 } } else { Op::Verify { slot: 0 } });
     }
-    for t in 1..n_threads {
-        threads[0].push(Op::Drop { slot: t as u8 });
-    }
-    threads[0].push(if rng.chance(1, 2) { Op::Drop { slot: 0 } } else { Op::Verify { slot: 0 } });
     Scenario {
         prop: "C12".into(),
         base_seed,
